@@ -334,6 +334,7 @@ def parse_cube(text):
         nset = _int(toks[0], "dset-record")
         toks = toks[1 + nset:]
     cube["nval"] = nval * nset
+    cube["atom_like_records"] = looks
     cube["value_tokens"] = toks
     cube["values"] = [_dec(w, "value-block") for w in toks]
     cube["values_per_line"] = per_line
@@ -540,6 +541,8 @@ def check_cube(text, shape, origin, deltas, pattern, natoms):
             + ("too-few" if len(got) < n else "too-many"),
             {"got": len(got), "expected": n, "shape": list(shape),
              "common_prefix_equal": prefix,
+             "natoms_header": cube["natoms"],
+             "atom_like_records_after_header": cube["atom_like_records"],
              "tail_tokens": cube["value_tokens"][-3:]}))
     else:
         bad = [idx for idx, (g, w) in enumerate(zip(got, want))
